@@ -59,12 +59,14 @@ func TestChild(t *testing.T) {
 	for _, s := range scs {
 		// one recorder per scenario: goroutines left over from an aborted scenario must not write into the next trace
 		rec := &recorder{out: of}
-		rec.ev("reset", tv.M{"sid": s.ID, "prim": s.Prim, "graceful": s.Graceful, "class": s.Class})
+		rec.ev("reset", tv.M{"sid": s.ID, "prim": s.Prim, "graceful": s.Graceful, "class": s.Class, "realtime": s.Prim == "outercancel" && s.Free})
 		var schedule []string
 		var rerr error
 		leaked := false
 		note := ""
-		if s.Prim == "outercancel" {
+		if s.Prim == "outercancel" && s.Free {
+			leaked, rerr = runOuterFree(s, rec)
+		} else if s.Prim == "outercancel" {
 			leaked, note, rerr = runOuter(t, s, rec)
 		} else {
 			schedule, leaked, rerr = runGated(s, rec)
@@ -282,4 +284,104 @@ func outerBody(sc scenario, rec *recorder, judged *bool) {
 	rec.mu.Unlock()
 	shutdown()
 	all.Wait()
+}
+
+// runOuterFree: one free-running round of lock.OuterCancel on the real clock and with real parallelism (a synctest
+// bubble cannot show an ordering that needs two processors).  A few readers that release only after the writer has
+// been granted, each with a large tree of contexts derived from the one the lock handed to it (so that cancelling it
+// takes measurable time), then a writer.  At the instant Lock returns the writer looks at the readers' working
+// contexts (a sample of the derived ones, then the handed one): a reader counts as told to stop only if all of them
+// have ended.  Judged by the same contract; only the laws that need the virtual clock are off (reset.realtime).
+func runOuterFree(sc scenario, rec *recorder) (leaked bool, err error) {
+	start := time.Now()
+	now := func() int { return int(time.Since(start) / time.Millisecond) }
+	oc := lock.NewOuterCancel(errConfigured, time.Duration(sc.Graceful)*time.Millisecond)
+	runCtx, shutdown := context.WithCancel(context.Background())
+	defer shutdown()
+	go oc.Run(runCtx)
+	type rd struct {
+		rctx    context.Context
+		release context.CancelFunc
+		sample  []context.Context
+		undo    []context.CancelFunc
+	}
+	var rds []*rd
+	granted := make(chan struct{})
+	var wg sync.WaitGroup
+	for g := 1; g <= sc.Readers; g++ {
+		rec.ev("acq_call", tv.M{"g": g, "key": 0, "mode": "r", "pre": false, "now": now()})
+		rctx, release, rerr := oc.RLock(context.Background())
+		rec.ev("acq_ret", tv.M{"g": g, "ok": rerr == nil, "now": now()})
+		if rerr != nil {
+			return false, fmt.Errorf("RLock: %v", rerr)
+		}
+		rec.ev("enter", tv.M{"g": g})
+		r := &rd{rctx: rctx, release: release}
+		step := sc.Children/32 + 1
+		for i := 0; i < sc.Children; i++ {
+			c, cf := context.WithCancel(rctx)
+			r.undo = append(r.undo, cf)
+			if i%step == 0 {
+				r.sample = append(r.sample, c)
+			}
+		}
+		rds = append(rds, r)
+		wg.Add(1)
+		go func(g int, r *rd) { // releases when told to stop, but not before the writer has looked
+			defer wg.Done()
+			<-r.rctx.Done()
+			<-granted
+			rec.ev("exit", tv.M{"g": g})
+			rec.ev("rel_call", tv.M{"g": g, "how": "runlock"})
+			r.release()
+			rec.ev("rel_ret", tv.M{"g": g})
+		}(g, r)
+	}
+	w := sc.Readers + 1
+	rec.ev("acq_call", tv.M{"g": w, "key": 0, "mode": "w", "pre": false, "now": now()})
+	unlock := oc.Lock()
+	told := make([]bool, len(rds))
+	for i, r := range rds { // first the derived contexts (they do not wait for a cancellation in progress), then the handed one
+		ok := true
+		for _, c := range r.sample {
+			if c.Err() == nil {
+				ok = false
+				break
+			}
+		}
+		told[i] = ok && r.rctx.Err() != nil
+	}
+	t := now()
+	for i, r := range rds {
+		if told[i] {
+			cause := "other"
+			switch c := context.Cause(r.rctx); {
+			case errors.Is(c, errConfigured):
+				cause = "configured"
+			case errors.Is(c, context.Canceled):
+				cause = "parent"
+			}
+			rec.ev("told_to_stop", tv.M{"g": i + 1, "cause": cause, "now": t})
+		}
+	}
+	rec.ev("acq_ret", tv.M{"g": w, "ok": true, "now": t})
+	rec.ev("enter", tv.M{"g": w})
+	close(granted)
+	rec.ev("exit", tv.M{"g": w})
+	rec.ev("rel_call", tv.M{"g": w, "how": "unlock"})
+	unlock()
+	rec.ev("rel_ret", tv.M{"g": w})
+	done := make(chan struct{})
+	go func() { wg.Wait(); close(done) }()
+	select {
+	case <-done:
+	case <-time.After(5 * time.Second):
+		leaked, err = true, fmt.Errorf("readers did not end")
+	}
+	for _, r := range rds {
+		for _, cf := range r.undo {
+			cf()
+		}
+	}
+	return leaked, err
 }
